@@ -107,7 +107,15 @@ var c13Anchors = map[string]wctx.ProjectType{".git": "git", "Dockerfile": "docke
 func c13FileContent(t *rapid.T, name string) []byte {
 	switch name {
 	case "package.json":
-		switch rapid.IntRange(0, 5).Draw(t, "pkg-kind") {
+		switch rapid.IntRange(0, 6).Draw(t, "pkg-kind") {
+		case 6: // a big project: dozens to hundreds of scripts
+			scripts := map[string]string{}
+			n := rapid.SampledFrom([]int{12, 13, 15, 16, 17, 31, 32, 33, 40, 64, 100, 256, 300, 1000}).Draw(t, "many-scripts")
+			for i := 0; i < n; i++ {
+				scripts[fmt.Sprintf("task%d", i)] = "echo x"
+			}
+			d, _ := json.Marshal(map[string]any{"name": "x", "scripts": scripts})
+			return d
 		case 0:
 			scripts := map[string]string{}
 			for _, k := range rapid.SliceOfN(rapid.SampledFrom([]string{"build", "test", "start", "lint", "dev", "deploy", "x y", ""}), 0, 4).Draw(t, "scripts") {
@@ -128,6 +136,11 @@ func c13FileContent(t *rapid.T, name string) []byte {
 		}
 	case "Makefile", "makefile":
 		lines := rapid.SliceOfN(rapid.SampledFrom([]string{"all: build", "build:", "\tgo build ./...", "# comment: x", "VAR = 1", "VAR := a:b", ".PHONY: all", "test: build lint", "  indented: y", "", ":", "a b: c", "clean::", "x=y: z"}), 0, 12).Draw(t, "mk")
+		if rapid.IntRange(0, 5).Draw(t, "many-targets") == 0 {
+			for i, n := 0, rapid.SampledFrom([]int{13, 15, 16, 17, 32, 33, 64, 100, 300}).Draw(t, "n-targets"); i < n; i++ {
+				lines = append(lines, fmt.Sprintf("target%d: dep\n\t@echo %d", i, i))
+			}
+		}
 		return []byte(strings.Join(lines, "\n"))
 	default:
 		return rapid.SliceOfN(rapid.Byte(), 0, 40).Draw(t, "content")
